@@ -6,9 +6,9 @@ from ..runner import Part
 
 PROPERTY = 'C10'
 LEVEL = 'exploration'
-REASONS = [b'', b'x', b'Permission denied', b'r' * 300, b'bad \xff\xfe name']
+REASONS = [b'', b'x', b'Permission denied', b'r' * 300, b'bad \xff\xfe name', b'disk 100% full', b'%s %d %(x)s', b'50%%']
 RULE = ('pull: FAIL right after RECV / after 1 or 2 DATA records / in place of DONE; push: FAIL after SEND, after the k-th DATA, at DONE, for files of 100, 5000, 9000 and 17000 bytes at maxdata 4096 (1 to 5+ host WRTEs), '
-        'with EVERY position of the FAIL WRTE among the device\'s OKAYs (emitted after 0..n further host WRTEs); reasons {empty, x, Permission denied, 300 bytes, non-UTF-8}; the '
+        'with EVERY position of the FAIL WRTE among the device\'s OKAYs (emitted after 0..n further host WRTEs); reasons {empty, x, Permission denied, 300 bytes, non-UTF-8, three containing per-cent signs}; the '
         'FAIL record cut into WRTEs at every set of <=2 positions (<=1 for the 300-byte reason); sync records that are not valid at that point (every known id, first reply and after '
         'a DATA record, for pull, list, stat and the push status); both twins; oracle: pull -> AdbCommandFailureException containing the reason, push -> PushFailedError carrying it, '
         'invalid record -> InvalidResponseError, never a normal return, never a timeout class, less virtual time spent than the read timeout; non-trivial = every case; distinct = distinct parameter tuple x cut set')
